@@ -38,6 +38,7 @@ var (
 	fReplays  = flag.String("sim.replaydir", "", "directory for replay files")
 	fBig      = flag.Bool("sim.big", false, "thorough tier: larger populations (one more client, twice the requests per client, one more generation)")
 	fFine     = flag.String("sim.finesites", "", "fine-grained mode: list of the instrumented sites of this binary (json)")
+	fOnly     = flag.Int("sim.only", -1, "digest mode: only this index (with -sim.dump: to look at one run)")
 	fDump     = flag.Bool("sim.dump", false, "digest mode: print the event logs too")
 	fDigest   = flag.Bool("sim.digest", false, "print one event-log digest per seed instead of checking (determinism self-test)")
 )
@@ -931,8 +932,18 @@ func runDigest(t *testing.T) {
 		tb := &recTB{}
 		rapid.Check(tb, func(rt *rapid.T) {
 			in := GenInput(rt, &prof)
-			res := Run(t, in, "none", false)
+			if *fOnly >= 0 && i != *fOnly {
+				return
+			}
+			res := Run(t, in, "none", *fDump)
 			fmt.Printf("%d %s %s steps=%d err=%q\n", i, prof.Name, res.Digest, res.Steps, res.HarnessErr)
+			if *fDump {
+				b, _ := json.Marshal(in)
+				fmt.Printf("  input %s\n", b)
+				for _, l := range res.Lines {
+					fmt.Printf("  | %s\n", l)
+				}
+			}
 		})
 	}
 }
